@@ -19,10 +19,51 @@ pub fn gen_c17(c: &mut Choices) -> Case {
     let mut expected = vec![];
     let mut inhabitants = serde_json::Map::new();
     let mut max_depth = 0;
+    // the same prop declared by both members of a union of object types, spelled differently:
+    // one prop whose type is the union of the two member types
+    let mut second_branch: Option<String> = None;
     for i in 0..n {
         let mut t: RtType = g.ty(0);
         let optional = g.c.chance(1, 3);
         let key = format!("p{i}");
+        if i == 0 && g.c.chance(1, 10) {
+            let u = g.ty(1);
+            let (ctors, loose) = crate::gen::types::merge(&[&t, &u]);
+            let mut inh = t.inhabitants.clone();
+            inh.extend(u.inhabitants.clone());
+            let (ka, kb) = match g.c.pick(3) {
+                0 => (key.clone(), format!("\"{key}\"")),
+                1 => (format!("\"{key}\""), key.clone()),
+                _ => (format!("[\"{key}\"]"), key.clone()),
+            };
+            g.labels.push("same-prop-spelled-differently-in-union-members".into());
+            second_branch = Some(format!("{{ {kb}: {} }}", u.text));
+            let text = format!("{} | {}", t.text, u.text);
+            members.push(format!("{ka}: {}", t.text));
+            t = RtType { text, ctors, loose, inhabitants: inh, depth: t.depth.max(u.depth) + 1 };
+            max_depth = max_depth.max(t.depth);
+            let view = |v: &Vec<String>, lit_as: &str| -> Vec<String> {
+                let mut out: Vec<String> = vec![];
+                for c in v {
+                    let c = if c == "BigInt#lit" { lit_as.to_string() } else { c.clone() };
+                    if !out.contains(&c) {
+                        out.push(c);
+                    }
+                }
+                out
+            };
+            let mk = |lit_as: &str| -> Value {
+                json!({
+                    "ctors": t.ctors.as_ref().map(|c| view(c, lit_as)),
+                    "loose": t.loose.as_ref().map(|(a, b)| json!({"must": view(a, lit_as), "may": view(b, lit_as)})),
+                })
+            };
+            let normal = mk("BigInt");
+            let d18 = mk("Number");
+            expected.push(json!({"key": key, "ctors": normal["ctors"], "loose": normal["loose"], "type": t.text, "d18": d18}));
+            inhabitants.insert(key, Value::Array(t.inhabitants.clone()));
+            continue;
+        }
         match g.c.weighted(&[12, 1, 1, 1]) {
             1 => {
                 // no annotation: implicitly `any`, nothing can be checked
@@ -72,9 +113,12 @@ pub fn gen_c17(c: &mut Choices) -> Case {
         inhabitants.insert(key, Value::Array(t.inhabitants.clone()));
     }
     let decls = g.decls.join("\n");
+    let props_type = match &second_branch {
+        Some(b) => format!("{{ {} }} | {b}", members.join("; ")),
+        None => format!("{{ {} }}", members.join("; ")),
+    };
     let src = format!(
-        "import {{ defineComponent }} from \"vue\";\n{decls}\nexport const Comp = defineComponent((props: {{ {} }}) => () => null);\n",
-        members.join("; ")
+        "import {{ defineComponent }} from \"vue\";\n{decls}\nexport const Comp = defineComponent((props: {props_type}) => () => null);\n"
     );
     let mut case = Case::new(src, "tsx", Some(RT.into()));
     case.labels = g.labels.clone();
@@ -424,6 +468,18 @@ impl EmitGen<'_, '_, '_> {
                         }
                     })
                     .collect();
+                let mut ms = ms;
+                if self.g.c.chance(1, 6) {
+                    // `[evk]` names the event by the value of `evk`, not "evk": resolved or reported
+                    self.g.label("emits-computed-identifier-key");
+                    if !self.g.decls.iter().any(|d| d.text.starts_with("const evk")) {
+                        self.g.decls.push(crate::gen::types::Decl {
+                            text: "const evk = \"dynEv\";".into(),
+                            after: false,
+                        });
+                    }
+                    ms.push("[evk]: [x: number]".to_string());
+                }
                 format!("{{ {} }}", ms.join("; "))
             }
             5 => {
@@ -553,6 +609,11 @@ impl Property for C19 {
             Ok(x) => x,
             Err(v) => return v,
         };
+        let computed_key = case.labels.iter().any(|l| l == "emits-computed-identifier-key");
+        if computed_key && !diags.is_empty() {
+            // an event named by the value of an identifier: reporting it is fine
+            return Verdict::Pass;
+        }
         if !diags.is_empty() {
             return Verdict::Violation {
                 kind: "unexpected-diagnostic".into(),
@@ -584,6 +645,10 @@ impl Property for C19 {
             .as_array()
             .map(|a| a.iter().filter_map(|k| k.as_str().map(|s| s.to_string())).collect())
             .unwrap_or_default();
+        if computed_key {
+            // (not reported: then the event is the value of `evk`)
+            want.push("dynEv".into());
+        }
         want.sort();
         let mut got: Vec<String> = call["emits"]
             .as_array()
